@@ -13,7 +13,8 @@
 From Coq Require Import String.
 From PF Require Import Base.Bytes.
 From PF Require Formats.Stl Formats.StlProofs Formats.Splat Formats.Spz Formats.Pts Formats.PtsProofs.
-From PF Require Import Formats.PlyRead Formats.PrefixProofs Formats.PrefixCost Formats.PrefixSurplus.
+From PF Require Import Formats.PlyRead Formats.PrefixProofs Formats.PrefixCost Formats.PrefixSurplus Formats.PrefixAll
+  Formats.PrefixChunked.
 Open Scope list_scope.
 
 (* ---------------------------------------------------------------- binary STL *)
@@ -282,6 +283,91 @@ Print Assumptions decode_cost_ply_ascii_alloc_refuted.
 Theorem decode_cost_spz : forall l, (spz_alloc l <= N.of_nat (length l) + 450000000)%N.
 Proof. exact spz_alloc_cost. Qed.
 Print Assumptions decode_cost_spz.
+
+(* ================================================================ THE PROPERTY, PACKAGED ====================== *)
+(* [cut_ok rejected outs full trailing_only] (Formats/PrefixAll.v):
+     forall k, rejected (outs k) \/ (trailing_only k /\ outs k = full)
+   -- for every cut the decoder reports an error, or only trailing framing was cut and the result is the one of the
+   complete file.  One clause per format family, each derived from the per-format theorems above. *)
+Theorem prefix_all_formats :
+  (* binary STL, the chunked reader as it is now: no trailing framing *)
+  (forall hdr ts, length hdr = 80%nat -> bytes_ok hdr -> (N.of_nat (length ts) < 4294967296)%N ->
+     let f := Stl.write hdr ts in
+     cut_ok is_none (fun k => Stl.read_chunked Stl.stl_chunk (firstn k f)) (Stl.read_chunked Stl.stl_chunk f)
+            (fun k => (length f <= k)%nat)) /\
+  (* .splat, record streamed: exactly the complete records, error flag iff a record was cut *)
+  (forall rs k, Forall Splat.raw_ok rs -> (k <= length (Splat.write_raw rs))%nat ->
+     Splat.read (firstn k (Splat.write_raw rs)) = (map Splat.dequantise (firstn (k / 32) rs), (k mod 32 =? 0)%nat)) /\
+  (* SPZ behind gzip: trailing framing = the compressed bytes after the last plaintext byte *)
+  (forall inflate : list N -> list N, (forall z k, exists j, inflate (firstn k z) = firstn j (inflate z)) ->
+     forall z h ps, inflate z = Spz.encode_ref h ps -> Spz.header_ok h -> Spz.lengths_match h ps ->
+     cut_ok is_none (fun k => spz_read inflate (firstn k z)) (spz_read inflate z)
+            (fun k => inflate (firstn k z) = inflate z)) /\
+  (* PLY header, cut after j lines *)
+  (forall hdr h, parse_header hdr = Ok h ->
+     cut_ok is_eof (fun j => parse_header (firstn j hdr)) (Ok h) (fun _ => True)) /\
+  (* PLY binary body: c = end of the data the header promises; below it every cut is end-of-input *)
+  (forall hdr bytes m, read_mesh {| pf_header := hdr; pf_body := BodyBin bytes |} = Ok m ->
+     exists c, (c <= length bytes)%nat /\
+       (forall k, (k < c)%nat -> is_eof (read_mesh {| pf_header := hdr; pf_body := BodyBin (firstn k bytes) |})) /\
+       cut_ok is_eof (fun k => read_mesh {| pf_header := hdr; pf_body := BodyBin (firstn k bytes) |}) (Ok m)
+              (fun k => (c <= k)%nat)) /\
+  (* PLY ASCII body, cut after k lines (token cuts inside a line: prefix_ply_ascii_vertex_token / _face_token /
+     _surplus_vertex / _surplus_face) *)
+  (forall hdr lines m, read_mesh {| pf_header := hdr; pf_body := BodyAscii lines |} = Ok m ->
+     exists c, (c <= length lines)%nat /\
+       (forall k, (k < c)%nat -> is_eof (read_mesh {| pf_header := hdr; pf_body := BodyAscii (firstn k lines) |})) /\
+       cut_ok is_eof (fun k => read_mesh {| pf_header := hdr; pf_body := BodyAscii (firstn k lines) |}) (Ok m)
+              (fun k => (c <= k)%nat)) /\
+  (* PTS, token boundary (j lines, m tokens): rejected, or the one-point file cut after >= 3 fields, whose result
+     holds only values of tokens present *)
+  (forall n w (ls : list Pts.line) j m, PtsProofs.pts_valid n w ls -> (j < n)%nat -> (m < w)%nat ->
+     Pts.pts_read (Some (Z.of_nat n)) (Pts.pts_prefix ls j m) = None \/
+     (n = 1%nat /\ j = 0%nat /\ (3 <= m)%nat /\
+      forall r, Pts.pts_read (Some (Z.of_nat n)) (Pts.pts_prefix ls j m) = Some r ->
+                Pts.no_placeholderb (Some (Z.of_nat n)) (Pts.pts_prefix ls j m) r = true)).
+Proof. exact all_formats. Qed.
+Print Assumptions prefix_all_formats.
+
+(* "never returns placeholder vertices or faces": derived FROM prefix_all_formats (cut_ok_accepts: a cut that is not
+   rejected has trailing_only and the complete result).  .splat and PTS: the clauses of prefix_all_formats give the
+   result / its provenance directly. *)
+Theorem no_placeholder_all_formats :
+  (forall hdr ts k x, length hdr = 80%nat -> bytes_ok hdr -> (N.of_nat (length ts) < 4294967296)%N ->
+     Stl.read_chunked Stl.stl_chunk (firstn k (Stl.write hdr ts)) = Some x ->
+     Some x = Stl.read_chunked Stl.stl_chunk (Stl.write hdr ts)) /\
+  (forall inflate : list N -> list N, (forall z k, exists j, inflate (firstn k z) = firstn j (inflate z)) ->
+     forall z h ps k x, inflate z = Spz.encode_ref h ps -> Spz.header_ok h -> Spz.lengths_match h ps ->
+     spz_read inflate (firstn k z) = Some x -> Some x = spz_read inflate z) /\
+  (forall hdr bytes m k m', read_mesh {| pf_header := hdr; pf_body := BodyBin bytes |} = Ok m ->
+     read_mesh {| pf_header := hdr; pf_body := BodyBin (firstn k bytes) |} = Ok m' -> m' = m) /\
+  (forall hdr lines m k m', read_mesh {| pf_header := hdr; pf_body := BodyAscii lines |} = Ok m ->
+     read_mesh {| pf_header := hdr; pf_body := BodyAscii (firstn k lines) |} = Ok m' -> m' = m).
+Proof. exact all_formats_no_placeholder. Qed.
+Print Assumptions no_placeholder_all_formats.
+
+(* ================================================================ READER INDEPENDENCE ========================= *)
+(* Decoders ask their io.Reader only for "exactly n bytes" (io.ReadFull / binary.Read).  [prog]: programs over that
+   primitive; [run p l]: on a byte list; [run_chunked p cs]: on any list of chunks cs -- what a reader that returns
+   cs one Read call at a time (all at once, byte by byte, halves, empty reads) delivers.  The value and the unread
+   bytes depend only on the concatenation. *)
+Theorem run_chunked_eq_run : forall (T A : Type) (p : @prog T A) (cs : list (list T)),
+  flat (run_chunked p cs) = run p (concat cs).
+Proof. exact (@PrefixChunked.run_chunked_eq_run). Qed.
+Print Assumptions run_chunked_eq_run.
+(* the models ARE such programs: ply.ReadMesh's binary body reader, stl.Read, splat.Read *)
+Theorem ply_bin_reader_independent : forall gs u h cs,
+  read_body_chunked gs u h cs = read_body gs u h (BodyBin (concat cs)).
+Proof. exact PrefixChunked.ply_bin_reader_independent. Qed.
+Print Assumptions ply_bin_reader_independent.
+Theorem stl_reader_independent : forall cs fuel, (length (concat cs) <= fuel)%nat ->
+  rbind (run_chunked (stl_prog fuel) cs) (fun x => Ok (fst x)) = of_optE (Stl.read (concat cs)).
+Proof. exact PrefixChunked.stl_reader_independent. Qed.
+Print Assumptions stl_reader_independent.
+Theorem splat_reader_independent : forall fuel cs,
+  rbind (run_chunked (splat_prog fuel) cs) (fun x => Ok (fst x)) = Ok (Splat.read_raw fuel (concat cs)).
+Proof. exact PrefixChunked.splat_reader_independent. Qed.
+Print Assumptions splat_reader_independent.
 
 (* ---------------------------------------------------------------- non-vacuity *)
 Open Scope string_scope.
